@@ -3,9 +3,12 @@
                the expired requests (the only nondeterminism of the code), produces exactly the
                implementation's observations (events minus the ghost EClash / unobservable EDrop).
    [monitor] : the acceptor of Spec.v run on the implementation's own event trace, plus the
-               per-operation boundary clauses of the property (pending ids = open requests,
-               timer armed while anything is pending, nothing expired survives a scan, callbacks
-               on the service loop goroutine - a measurement -, suppressed responses). *)
+               per-operation boundary clauses of the property (pending keys of all incarnations
+               = open requests, the timer of every incarnation that has a pending request is
+               armed, one timer flag per incarnation (restarts + 1), a response addresses its id
+               in the live incarnation, nothing expired survives a scan, callbacks on the service
+               loop goroutine - a measurement -, suppressed responses, a reply completes the
+               request the peer was answering - Spec.answers_own, by the response's ghost). *)
 From Cell2V Require Import Common.Tac Common.ListX Common.AList C01.Model C01.Spec.
 
 Definition ev_eqb (a b : ev) : bool :=
@@ -44,10 +47,25 @@ Fixpoint timeout_tags (l : list ev) : list Z :=
   | _ :: r => timeout_tags r
   end.
 
+(* ... up to the next marker: the timeouts of one scan *)
+Fixpoint head_tags (l : list ev) : list Z :=
+  match l with
+  | [] => []
+  | e :: r => if is_marker e then []
+              else match e with ECb t RTimeout => t :: head_tags r | _ => head_tags r end
+  end.
+
+(* ... scan by scan (a Tick's events are one block per incarnation, each begun by a marker) *)
+Fixpoint block_tags (l : list ev) : list (list Z) :=
+  match l with
+  | [] => []
+  | e :: r => if is_marker e then head_tags r :: block_tags r else block_tags r
+  end.
+
 Fixpoint with_hints (ops : list op) (bs : list obs) : list op :=
   match ops, bs with
-  | Tick _ :: r, Obs evs _ _ _ _ _ :: br => Tick (timeout_tags evs) :: with_hints r br
-  | TickReal _ :: r, Obs evs _ _ _ _ _ :: br => TickReal (timeout_tags evs) :: with_hints r br
+  | Tick _ :: r, Obs evs _ _ _ _ _ :: br => Tick (block_tags evs) :: with_hints r br
+  | TickReal _ :: r, Obs evs _ _ _ _ _ :: br => TickReal (block_tags evs) :: with_hints r br
   | o :: r, _ :: br => o :: with_hints r br
   | _, _ => ops
   end.
@@ -94,6 +112,7 @@ Fixpoint mon_from (c : Z) (a : ast) (ops : list op) (bs : list obs) : bool :=
           && forallb (armed_key arms) pend
           && (Z.of_nat (length arms) =? c + crashes_of o + 1)
           && scan_post a'
+          && own_b evs
           && (got =? got_of o)
           && peer_eqb peer (sent_of MaxReqId evs)
           && onloop
